@@ -141,6 +141,18 @@ fn exec(line: &str) -> String {
         "zq" => hx(Normal::new(0., 1.).unwrap().inverse_cdf(f(t[1]))),
         "qstats_ci" => showu(quantile::Stats::new(u(t[1])).ci(conf(t[3], t[4]), f(t[2]))),
         "qindices" => showu(quantile::ci_indices(conf(t[3], t[4]), u(t[1]), f(t[2]))),
+        "qdata" => {
+            // qdata <ci|ci_max|ci_sorted> <n> <a> <q> <kind> <level>: data[i] = (i*a + 1) mod n (a permutation of 0..n when gcd(a,n)=1),
+            // so every value equals its own rank and the reported bounds must be the ranks of ci_indices
+            let (n, a) = (u(t[2]), u(t[3]));
+            let data: Vec<f64> = (0..n).map(|i| ((i * a + 1) % n) as f64).collect();
+            let c = conf(t[5], t[6]);
+            match t[1] {
+                "ci" => show64(quantile::ci(c, &data, f(t[4]))),
+                "ci_max" => show64(quantile::ci_max_size::<f64, _, 8192>(c, &data, f(t[4]))),
+                _ => { let mut d = data.clone(); d.sort_by(|x, y| x.partial_cmp(y).unwrap()); show64(quantile::ci_sorted_unchecked(c, &d, f(t[4]))) }
+            }
+        }
         "qindex" => match quantile::Stats::new(u(t[1])).index(f(t[2])) { Ok(i) => format!("ok {}", i), Err(e) => format!("err {}", variant(&e)) },
         "kahan" => {
             if is32 {
